@@ -2,3 +2,8 @@
 import Woodpile.Gen.Consts
 import Woodpile.Model.Arena
 import Woodpile.Model.ReadN
+import Woodpile.Model.Raffle
+import Woodpile.Model.VouchedTime
+import Woodpile.Proofs.Raffle
+import Woodpile.Proofs.VouchedTime
+import Woodpile.Props.C14
